@@ -171,19 +171,22 @@ def check_pack(ctx, rules=("PACK", "AFFINE", "FEASIBLE")):
         # k used in the closure
         k_cl, slot_names = 0, []
         store_ok = False
+        for n_ in ast.walk(closure.node):
+            if isinstance(n_, ast.Subscript) and U(n_.value) == par:
+                sl = n_.slice
+                neg = lambda x: x.operand.value if isinstance(x, ast.UnaryOp) and isinstance(x.op, ast.USub) and isinstance(x.operand, ast.Constant) and isinstance(x.operand.value, int) else None
+                if isinstance(sl, ast.Slice):
+                    if sl.lower is not None and sl.upper is None and neg(sl.lower):  # params[-k:]
+                        k_cl = max(k_cl, neg(sl.lower))
+                    if sl.lower is None and sl.upper is not None and neg(sl.upper):  # params[:-k]
+                        k_cl = max(k_cl, neg(sl.upper))
+                elif neg(sl):  # params[-j]
+                    k_cl = max(k_cl, neg(sl))
+        slot_names = [f"{par}[-{j}]" for j in range(k_cl, 0, -1)]
         for s in gv.statements():
-            if isinstance(s, ast.Assign):
-                v = s.value
-                if isinstance(v, ast.Subscript) and U(v.value) == par and isinstance(v.slice, ast.Slice):
-                    sl = v.slice
-                    if sl.lower is not None and sl.upper is None and isinstance(sl.lower, ast.UnaryOp):  # params[-k:]
-                        k_cl = max(k_cl, sl.lower.operand.value)
-                        t = s.targets[0]
-                        slot_names = [e.id for e in t.elts] if isinstance(t, ast.Tuple) else [t.id]
-                    if sl.lower is None and sl.upper is not None and isinstance(sl.upper, ast.UnaryOp):  # params[:-k]
-                        k_cl = max(k_cl, sl.upper.operand.value)
-                        store_ok = U(s.targets[0]) == "data_flat[free]"
-                elif U(v) == par and U(s.targets[0]) == "data_flat[free]":
+            if isinstance(s, ast.Assign) and U(s.targets[0]) == "data_flat[free]":
+                vtxt = U(gv.expand(s.value, s)).replace(" ", "")
+                if vtxt == (f"{par}[:-{k_cl}]" if k_cl else par):
                     store_ok = True
         # read-back
         k_rb = None
@@ -304,7 +307,8 @@ def _check_model(ctx, closure, site, env_outer, slot_names, rules):
     def hook(cv, call, name):
         return None
 
-    ex = gv.expand(rets[0].value, rets[0], stop=tuple(slot_names or ()) + ("vmin", "vrng", "data_mask", "droplet"))
+    own = {n_.id for n_ in ast.walk(closure.node) if isinstance(n_, ast.Name) and isinstance(n_.ctx, ast.Store)}
+    ex = gv.expand(rets[0].value, rets[0], stop=tuple(x for x in ("vmin", "vrng", "data_mask", "droplet") if x not in own))
     from ..astutil import resolve_closure_aliases
 
     ex = resolve_closure_aliases(m, closure, ex)
@@ -558,6 +562,10 @@ def check_bounds_layout(ctx):
                 got = {}
                 for s, t in stores:
                     sl = t.slice
+                    if isinstance(sl, ast.Name):
+                        sl = fv.expand(sl, s)  # a slice object kept in a variable
+                    if isinstance(sl, ast.Call) and U(sl.func) == "slice" and len(sl.args) == 2 and not sl.keywords:
+                        sl = ast.Slice(lower=sl.args[0], upper=sl.args[1], step=None)
                     if isinstance(sl, ast.Slice) and sl.lower is not None and sl.upper is not None:
                         lo = cv.conv(fv.expand(sl.lower, s))
                         hi = cv.conv(fv.expand(sl.upper, s))
